@@ -9,7 +9,7 @@
 //             a leading 'n' makes the thread non-joinable. Every joinable thread is joined by its creating vCPU's main thread.
 #include <photon/thread/thread.h>
 #include <photon/thread/stack-allocator.h>
-#include "mv_photon.h"
+#include "mv_prog.h"
 #include <atomic>
 #include <vector>
 #include <string>
@@ -50,12 +50,14 @@ static void* entry(void* arg) {
         step(p, op); expect++;
         switch (op) {
             case 'y': thread_yield(); break;
+            case 'p': { int n = pmc_choose(3, PMC_PROG, 0, "pad yields"); for (int kk = 0; kk < n; kk++) thread_yield(); break; }
+            case 'q': { if (pmc_choose(2, PMC_PROG, 0, "pad yield")) thread_yield(); break; }
             case 'z': thread_usleep(10); break;
             case 's': thread_usleep(1000000); break;      // 1 s: an interrupt that arrives before the sleep began is (by design) not delivered
             case 'm': { int v = my_vcpu(); thread_migrate(CURRENT, G->vcpus[(v + 1) % G->nos]); break; }
-            case 'i': { int k = p.ops[++i] - '0'; if (G->pts[k].th && !G->pts[k].finished) thread_interrupt(G->pts[k].th, EINTR); break; }
-            case 'I': { int k = p.ops[++i] - '0'; if (G->mains[k] && !G->main_gone[k].load()) { thread_interrupt(G->mains[k], EINTR); G->log += G->pts[0].finished ? 'F' : 'r'; } break; }
-            case 'M': { int k = p.ops[++i] - '0'; int v = my_vcpu(); if (G->pts[k].th && !G->pts[k].finished) { int r = thread_migrate(G->pts[k].th, G->vcpus[(v + 1) % G->nos]); if (r == 0) G->migrated[k] = 1; } break; }
+            case 'i': { int k = p.ops[++i] - '0'; if (k < (int)G->pts.size() && G->pts[k].th && !G->pts[k].finished) thread_interrupt(G->pts[k].th, EINTR); break; }
+            case 'I': { int k = p.ops[++i] - '0'; if (k < G->nos && G->mains[k] && !G->main_gone[k].load()) { thread_interrupt(G->mains[k], EINTR); G->log += G->pts[0].finished ? 'F' : 'r'; } break; }
+            case 'M': { int k = p.ops[++i] - '0'; int v = my_vcpu(); if (k < (int)G->pts.size() && G->pts[k].th && !G->pts[k].finished) { int r = thread_migrate(G->pts[k].th, G->vcpus[(v + 1) % G->nos]); if (r == 0) G->migrated[k] = 1; } break; }
         }
     }
     if (p.step != expect) pmc_violation("step-repeated-or-skipped", "thread %d finished with step counter %d (expected %d)", p.idx, p.step, expect);
@@ -72,8 +74,16 @@ static void on_deadlock(const char* dump) {
 void pmc_run(const char* config) {
     St st; G = &st;
     st.ws = config[0] == '1'; st.alloc = config[1]; for (auto& x : st.main_gone) x = 0; for (auto& x : st.migrated) x = 0;
+    std::string genprog;
+    if (!strncmp(config + 3, "gen", 3)) {      // generated program: every combination of ops for the given vCPU layout, every arrival order
+        pmc_window(1);
+        genprog = mvprog::generate(config + 3, {"y", "z", "m", "M0", "M1", "M2", "i0", "i1", "i2", "I0", "s"});
+        pmc_window(0);
+        if (genprog.empty()) pmc_broken("bad generator spec %s", config);
+        st.log = genprog + " ";
+    }
     { std::string cur; int os = 0;
-      for (const char* c = config + 3;; c++) {
+      for (const char* c = genprog.empty() ? config + 3 : genprog.c_str();; c++) {
           if (*c == ',' || *c == '|' || *c == 0) {
               if (!cur.empty() && cur[0] == 'X') { st.exit_early[os] = cur[1] - '0' + 1; cur.clear(); }
               if (!cur.empty()) { PT p; p.ops = cur; p.os = os; p.idx = st.pts.size(); p.joinable = cur[0] != 'n'; st.pts.push_back(p); cur.clear(); }
@@ -156,6 +166,11 @@ static const PmcConfig CFG[] = {
     {"0f:mzy|yI0",        2, {2,2}, {0,0}, {0,0}, {0,0}, "joiner interrupted while its thread runs elsewhere"},
     {"0f:M1,y|X1",        3, {1,2}, {0,0}, {0,0}, {0,0}, "a thread migrated into a vCPU that goes straight into vcpu_fini(): it must still run"},
     {"0f:M1M2,y,ny|X2",   3, {1,2}, {0,0}, {0,0}, {0,0}, ""},
+    {"0f:gen2|1x1",       3, {0,1}, {0,0}, {0,0}, {0,0}, "generated: 2+1 threads on two vCPUs, one op each from {y,z,m,M0-2,i0-2,I0,s}, every arrival order; thorough: + one preemption"},
+    {"0f:gen1|1x2",       3, {0,0}, {0,0}, {0,0}, {0,0}, "generated: 1+1 threads, up to 2 ops each"},
+    {"1f:gen2|1x1",       3, {0,0}, {0,0}, {0,0}, {0,0}, "... with work stealing"},
+    {"0f:gen2|1x2",       2, {0,0}, {0,0}, {0,0}, {0,0}, ""},
+    {"0p:gen2|1x1",       2, {0,0}, {0,0}, {0,0}, {0,0}, "pooled allocator"},
     {"0f:mym|ymy",        2, {1,2}, {0,0}, {0,0}, {0,0}, "ping-pong migration"},
     {"1f:m,yyy|",         3, {1,2}, {0,0}, {0,0}, {0,0}, "stealing: vCPU1 receives a migrated thread, then steals from vCPU0's run queue"},
     {"1f:m,yy,yy|",       3, {1,2}, {0,0}, {0,0}, {0,0}, ""},
